@@ -31,6 +31,7 @@ pub struct Ctx {
     pub pred_panic_nth: Option<u64>,
     pub hasher_clone_panics: bool,
     pub into_panics: bool,             // K::from(&k) (the Into conversion of entry_ref) panics
+    pub zst_live: i64,                 // zero-sized tokens with drop glue currently alive (created/cloned - dropped)
     pub drop_panics: u64,
     pub forgotten: u64,
     // ---- allocator ledger
